@@ -94,7 +94,7 @@ theorem lookup_reverse {α} (k : Str) (l : List (Str × α)) (hn : (l.map (·.1)
   | some x =>
     apply lookup_of_mem_nodup
     · rw [List.map_reverse]; exact nodup_reverse' _ hn
-    · exact List.mem_reverse.mpr (lookup_mem k l x h)
+    · exact List.mem_reverse.mpr (lookup_mem_cl k l x h)
 
 theorem lookup_map_self {α} (g : Str → α) (k : Str) : ∀ l : List Str,
     lookup k (l.map (fun f => (f, g f))) = if k ∈ l then some (g k) else none := by
@@ -127,7 +127,7 @@ theorem partReOf_noGroups (n : Str) (rx : Re) (h : partReOf n = some rx) : reGro
   | some s =>
     rw [hl] at h
     simp only [Option.bind_some] at h
-    have hm := lookup_mem n _ s hl
+    have hm := lookup_mem_cl n _ s hl
     have ht := partPatterns_noGroups
     rw [List.all_eq_true] at ht
     have := ht _ hm
@@ -1236,7 +1236,7 @@ theorem partOk_BLD (v : VInfo) : partOk v "BLD".toList = (isDigitStr v.bid && de
 theorem field_part_unique (f : Str) (ns : List Str)
     (htab : Gen.partFields.all (fun nf => nf.2 != f || ns.contains nf.1) = true) (n : Str)
     (h : lookup n Gen.partFields = some f) : n ∈ ns := by
-  have hm := lookup_mem n _ f h
+  have hm := lookup_mem_cl n _ f h
   rw [List.all_eq_true] at htab
   have := htab _ hm
   simpa using this
@@ -1569,7 +1569,7 @@ theorem pep440_empty (t p : Str) (h : lookup t Gen.pep440TagByTag = some p) :
     (!p.isEmpty || t == "final".toList) = true := by
   have ht := pep440_empty_table
   rw [List.all_eq_true] at ht
-  exact ht _ (lookup_mem t _ p h)
+  exact ht _ (lookup_mem_cl t _ p h)
 
 theorem rbTagStep_coh (t0 p0 t1 p1 : Str) (h : rbTagStep t0 p0 = .ok (t1, p1)) :
     (!p1.isEmpty || (if t1.isEmpty then "final".toList else t1) == "final".toList) = true := by
